@@ -272,6 +272,25 @@ def check(case):
             res.v("C14.f", "C14.f:text:%s" % it[2], "%s: value column of %s %s = %d shows %r, its text form is %r" % (
                 label, it[2], it[1], it[3], text_form(e.value), want))
             break
+    # the same printing in a fresh interpreter whose environment a user may well have (NO_COLOR, a dumb terminal, ...): the
+    # rows (colour codes aside) and the outcome must be the same
+    if int(__import__("hashlib").sha256(tp.spec["data"].encode()).hexdigest()[:6], 16) % 300 == 0 and len(tp.spec["data"]) < 6000 and not any(t_.get("root_path") for t_ in case["tasks"]):
+        from .. import pristine
+        envs = ({"NO_COLOR": "1"}, {"TERM": "dumb"}, {"NO_COLOR": "1", "TERM": "dumb"}, {"COLUMNS": "40", "LINES": "10"}, {"PYTHONIOENCODING": "ascii", "LC_ALL": "C"})
+        env = envs[len(tp.spec["data"]) % len(envs)]
+        specs_ = [dict(tp.spec, source="bytes"), dict(te.spec, source="bytes")]
+        for s_ in specs_:
+            for k_ in ("cancel_at", "chunks", "in_except"):
+                s_.pop(k_, None)
+        fresh = pristine.run_fresh(specs_, env_extra=env)
+        res.count("printed-in-fresh-interpreter-with-env")
+        for t_, fr in zip((tp, te), fresh):
+            mine = pristine.summarise(t_)
+            if mine != fr:
+                what = "rows" if mine[:2] == fr[:2] and mine[3:] == fr[3:] else "outcome"
+                res.v("C14.a", "C14.a:environment:%s:%s" % (t_.id, what), "%s: %s printer in a fresh interpreter with %s in its environment: %s differ - %s vs %s" % (
+                    label, t_.id, env, what, str(fr[3] if what == "outcome" else "")[:200], common.show_diff(fr[2], mine[2], "rows") if what == "rows" else str(mine[3])))
+                break
     res.count("rows", len(lines))
     res.count("rows:bits", sum(1 for r in rows if r[0] == "bits"))
     res.count("rows:buffer", sum(1 for r in rows if r[0] == "buffer"))
